@@ -888,13 +888,13 @@ def pattern_add8(context, tree, c0, c1):
     "reg",
     "ADDI32(reg, CONSTI32)",
     size=2,
-    condition=lambda t: t[1].value < 2048,
+    condition=lambda t: -2048 <= t[1].value < 2048,
 )
 @isa.pattern(
     "reg",
     "ADDU32(reg, CONSTU32)",
     size=2,
-    condition=lambda t: t[1].value < 2048,
+    condition=lambda t: -2048 <= t[1].value < 2048,
 )
 def pattern_add_i32_reg_const(context, tree, c0):
     d = context.new_reg(RiscvRegister)
@@ -907,13 +907,13 @@ def pattern_add_i32_reg_const(context, tree, c0):
     "reg",
     "ADDI32(CONSTI32, reg)",
     size=2,
-    condition=lambda t: t.children[0].value < 2048,
+    condition=lambda t: -2048 <= t.children[0].value < 2048,
 )
 @isa.pattern(
     "reg",
     "ADDU32(CONSTU32, reg)",
     size=2,
-    condition=lambda t: t.children[0].value < 2048,
+    condition=lambda t: -2048 <= t.children[0].value < 2048,
 )
 def pattern_add_i32_const_reg(context, tree, c0):
     d = context.new_reg(RiscvRegister)
@@ -1155,7 +1155,7 @@ def pattern_and_i(context, tree, c0, c1):
     "reg",
     "ANDI32(reg, CONSTI32)",
     size=2,
-    condition=lambda t: t.children[1].value < 2048,
+    condition=lambda t: -2048 <= t.children[1].value < 2048,
 )
 def pattern_and_i32(context, tree, c0):
     d = context.new_reg(RiscvRegister)
@@ -1199,7 +1199,7 @@ def pattern_or_i32(context, tree, c0, c1):
     "reg",
     "ORI32(reg, CONSTI32)",
     size=2,
-    condition=lambda t: t.children[1].value < 2048,
+    condition=lambda t: -2048 <= t.children[1].value < 2048,
 )
 def pattern_or_i32_reg_const(context, tree, c0):
     d = context.new_reg(RiscvRegister)
@@ -1212,7 +1212,7 @@ def pattern_or_i32_reg_const(context, tree, c0):
     "reg",
     "ORI32(CONSTI32, reg)",
     size=2,
-    condition=lambda t: t.children[0].value < 2048,
+    condition=lambda t: -2048 <= t.children[0].value < 2048,
 )
 def pattern_or_i32_const_reg(context, tree, c0):
     d = context.new_reg(RiscvRegister)
@@ -1432,7 +1432,7 @@ def pattern_xor_i32(context, tree, c0, c1):
     "reg",
     "XORI32(reg, CONSTI32)",
     size=2,
-    condition=lambda t: t.children[1].value < 2048,
+    condition=lambda t: -2048 <= t.children[1].value < 2048,
 )
 def pattern_xor_i32_reg_const(context, tree, c0):
     d = context.new_reg(RiscvRegister)
@@ -1445,7 +1445,7 @@ def pattern_xor_i32_reg_const(context, tree, c0):
     "reg",
     "XORI32(CONSTI32, reg)",
     size=2,
-    condition=lambda t: t.children[0].value < 2048,
+    condition=lambda t: -2048 <= t.children[0].value < 2048,
 )
 def pattern_xor_i32_const_reg(context, tree, c0):
     d = context.new_reg(RiscvRegister)
